@@ -88,21 +88,35 @@ def run_e2e(job):
         rows = [dict(release_time=0, lon=float(lo), lat=float(la), Z=1.0) for lo, la in job["targets"]]
         lab.write_release(d / "release.rls", rows)
         conf = lab.base_conf(d, 0, 64 * 4, 64, 64, str(d / "f.nc"), advection="EF", layout=job["layout"], subgrid=job.get("subgrid"),
-                             ivars=dict(lon="float", lat="float"), out_ivars=("pid", "X", "Y", "Z", "lon", "lat"))
+                             ivars=dict(lon="float", lat="float"), out_ivars=("pid", "X", "Y", "Z", "lon", "lat"), numrec=job.get("numrec", 0))
         st = lab.run(conf, d)
         if st != "ok":
             return dict(status=st)
-        o = lab.read_out(d / "out.nc")
-        i0, j0 = (job["subgrid"][0], job["subgrid"][2]) if job.get("subgrid") else (1, 1)
-        if job["layout"] == "sparse":
-            X, Y, LON, LAT = o["X"], o["Y"], o["lon"], o["lat"]
-            n0 = int(o["particle_count"][0])
-        else:
-            X, Y, LON, LAT = (o[v][~np.isnan(o[v]) & (np.abs(o[v]) < 1e30)] for v in ("X", "Y", "lon", "lat"))
-            n0 = len(rows)
-        elon = sample2D(lon, X, Y); elat = sample2D(lat, X, Y)
-        return dict(status=st, lon_err=float(np.max(np.abs(LON - elon))), lat_err=float(np.max(np.abs(LAT - elat))),
-                    first=[[float(X[k]), float(Y[k])] for k in range(min(n0, len(X)))], n=int(len(X)))
+        import glob
+        res = dict(status=st, lon_err=0.0, lat_err=0.0, n=0, files=0)
+        for fn in sorted(glob.glob(str(d / "out*.nc"))):      # every file of a split output
+            o = lab.read_out(fn)
+            if job["layout"] == "sparse":
+                X, Y, LON, LAT = (np.ma.filled(np.ma.asarray(o[v], dtype=float), np.nan) for v in ("X", "Y", "lon", "lat"))
+                n0 = int(o["particle_count"][0]) if len(o["particle_count"]) else 0
+            else:
+                ok_ = ~np.isnan(o["X"]) & (np.abs(o["X"]) < 1e30)
+                X, Y, LON, LAT = (np.ma.filled(np.ma.asarray(o[v], dtype=float), np.nan)[ok_] for v in ("X", "Y", "lon", "lat"))
+                n0 = len(rows)
+            if len(X):
+                okp = np.isfinite(X) & np.isfinite(Y) & (X >= 0) & (Y >= 0) & (X <= imax - 1) & (Y <= jmax - 1)
+                if not okp.all():
+                    res["lon_err"] = res["lat_err"] = float("inf")      # a record position that is not a position
+                    X, Y, LON, LAT = X[okp], Y[okp], LON[okp], LAT[okp]
+                elon = sample2D(lon, X, Y, outside_value=np.nan); elat = sample2D(lat, X, Y, outside_value=np.nan)
+                le, la = np.abs(LON - elon), np.abs(LAT - elat)
+                if len(le):
+                    res["lon_err"] = max(res["lon_err"], float(np.max(np.where(np.isnan(le), np.inf, le))))
+                    res["lat_err"] = max(res["lat_err"], float(np.max(np.where(np.isnan(la), np.inf, la))))
+            if res["files"] == 0:
+                res["first"] = [[float(X[k]), float(Y[k])] for k in range(min(n0, len(X)))]
+            res["n"] += int(len(X)); res["files"] += 1
+        return res
 
 
 def run(ctx: Ctx):
@@ -197,6 +211,16 @@ def run(ctx: Ctx):
                               correspondence="Newton iterates of bilin_inv vs Ladim.bilinInvStep (rounded between iterations)"))
         if "error" in g["vector"]:
             ctx.violation("failing-input", "bilin_inv-vectorised", dict(grid=job["kind"], targets=job["targets"]), dict(implementation=g["vector"]["error"]), tags=dict(first="bilin_inv-raises"))
+        elif all("error" not in s_ for s_ in g["single"]):
+            # the model is the iteration for one target; a call with several targets is that, target by target
+            ctx.case("bilin_inv-vectorised", [job["kind"], len(job["targets"])], nontrivial=True)
+            vx, vy = g["vector"]["x"], g["vector"]["y"]
+            dif = [k_ for k_, s_ in enumerate(g["single"]) if (s_["x"], s_["y"]) != (vx[k_], vy[k_])]
+            if dif:
+                k_ = dif[0]
+                ctx.violation("tie-broken", "bilin_inv-vectorised", dict(grid=job["kind"], targets=job["targets"]),
+                              dict(target=k_, alone=[g["single"][k_]["x"], g["single"][k_]["y"]], with_the_others=[vx[k_], vy[k_]],
+                                   correspondence="bilin_inv on several targets vs Ladim.bilinInv target by target (each target stops on its own residual)"))
     # ---------------- (c) Grid.xy2ll / ll2xy round trip on (sub)grids, (d) end to end
     ejobs = []
     for k in range(12 if ctx.thorough else 4):
@@ -209,11 +233,15 @@ def run(ctx: Ctx):
         for _ in range(6):
             x = float(r.uniform(lo[0] + 1.0, lo[1] - 2.5)); y = float(r.uniform(lo[2] + 1.0, lo[3] - 2.5))
             tg.append((float(sample2D(lon, np.array(x), np.array(y))), float(sample2D(lat, np.array(x), np.array(y))), x, y))
-        ejobs.append(dict(lon=lon, lat=lat, dx=dx, subgrid=sub, layout=["sparse", "dense"][k % 2], targets=[(t[0], t[1]) for t in tg], truth=[(t[2], t[3]) for t in tg]))
+        ejobs.append(dict(lon=lon, lat=lat, dx=dx, subgrid=sub, layout=["sparse", "dense"][k % 2], targets=[(t[0], t[1]) for t in tg], truth=[(t[2], t[3]) for t in tg],
+                          numrec=[0, 0, 2, 1][k % 4]))
+    # split output with lon/lat in the records, sparse layout
+    ejobs.append(dict(ejobs[0], layout="sparse", numrec=2))
+    ejobs.append(dict(ejobs[1], layout="sparse", numrec=1))
     eres = pmap(run_e2e, ejobs)
     for job, g in zip(ejobs, eres):
-        case = dict(dx=job["dx"], subgrid=job["subgrid"], layout=job["layout"], targets=job["targets"])
-        ctx.case("lonlat-end-to-end", [job["dx"], str(job["subgrid"]), job["layout"]], sample=dict(case, result=g))
+        case = dict(dx=job["dx"], subgrid=job["subgrid"], layout=job["layout"], numrec=job.get("numrec", 0), targets=job["targets"])
+        ctx.case("lonlat-end-to-end", [job["dx"], str(job["subgrid"]), job["layout"], job.get("numrec", 0)], sample=dict(case, result=g))
         if g.get("status") != "ok":
             ctx.violation("failing-input", "lonlat-end-to-end", case, dict(status=g.get("status")), tags=dict(first="status")); continue
         bad = []
